@@ -10,6 +10,7 @@ import Driver.Re
 import Driver.C13
 import Driver.C20
 import Driver.C04
+import Driver.C18
 namespace Driver
 
 def dispatch (op : String) : Option Handler :=
@@ -37,6 +38,9 @@ def dispatch (op : String) : Option Handler :=
   | "pctidx" => some Verbs.pctidx
   | "fanout" => some C20.fanout
   | "chainb" => some C04.chainb
+  | "fn" => some C18.noCrash
+  | "rdz" => some C18.noCrash
+  | "dslr" => some C18.noCrash
   | "thenpipe" => some C04.thenpipe
   | "ctxs" => some C04.ctxs
   | "re" => some Re.re
